@@ -6,6 +6,7 @@ import (
 	"strings"
 
 	"github.com/goghcrow/yae"
+	"github.com/goghcrow/yae/parser/ast"
 	"github.com/goghcrow/yae/types"
 	"github.com/goghcrow/yae/val"
 
@@ -30,7 +31,7 @@ func (c13) Meta(tier string) engine.Meta {
 	}
 	return engine.Meta{
 		Level: "model_checking",
-		Rule: fmt.Sprintf("explicit enumeration of ALL histories of <= %d operations (both back ends up to depth 3, the VM at the last depth) over a menu of 26 operations on ONE engine (plus one operation that compiles and invokes on a SECOND engine with the same shared environments): compile expression e0..e4 against one SHARED *types.Env object; invoke compiled expression k with one SHARED *val.Env object, with a host struct, with a host map; run Debug on two expressions; compile / invoke an expression that calls function values chosen at run time, with two shared environments holding different values. The expressions print, render multi-entry maps (also with keys that differ only in case) and objects, apply floor / ceil / round / abs / max to variables that are read again afterwards, call string / union / intersect / diff with several surviving elements, reach one value through two paths, and fail. Every history is executed under map-iteration seeds 1..8. Oracle (differential): the last operation's result, its rendering (String() and string(x)), its error class and the captured standard output must equal those of the same operation on a brand-new engine with brand-new environments under seed 1; stdout is empty unless the expression calls print; the host struct / map deep-equal their snapshot afterwards. Plus a long history: 300 compilations of a 300-constant literal followed by fresh compilations. non-trivial = histories of >= 2 operations", d),
+		Rule: fmt.Sprintf("explicit enumeration of ALL histories of <= %d operations (both back ends up to depth 3, the VM at the last depth) over a menu of 30 operations on ONE engine (plus one operation that compiles and invokes on a SECOND engine with the same shared environments; two operations that compile ONE parsed tree through Expr.CompileExpr against differently typed environments; two that compile against host structs of one Go type whose pointer field is nil / set): compile expression e0..e4 against one SHARED *types.Env object; invoke compiled expression k with one SHARED *val.Env object, with a host struct, with a host map; run Debug on two expressions; compile / invoke an expression that calls function values chosen at run time, with two shared environments holding different values. The expressions print, render multi-entry maps (also with keys that differ only in case) and objects, apply floor / ceil / round / abs / max to variables that are read again afterwards, call string / union / intersect / diff with several surviving elements, reach one value through two paths, and fail. Every history is executed under map-iteration seeds 1..8. Oracle (differential): the last operation's result, its rendering (String() and string(x)), its error class and the captured standard output must equal those of the same operation on a brand-new engine with brand-new environments under seed 1; stdout is empty unless the expression calls print; the host struct / map deep-equal their snapshot afterwards. Plus a long history: 300 compilations of a 300-constant literal followed by fresh compilations. non-trivial = histories of >= 2 operations", d),
 		Bound: fmt.Sprintf("depth %d; 5 expressions; 3 environment representations; 8 seeds", d),
 		Assumptions: []string{"a state is the whole history that reaches it (no state merging), so no canonicalisation argument is needed"},
 	}
@@ -98,10 +99,27 @@ func c13DynSpec(b bool) real.EnvSpec {
 // struct, 2 host map); 20, 21 Debug(e0), Debug(e2)
 // 25: compile e1 on a SECOND engine against the same shared *types.Env and invoke it with the
 // shared *val.Env (environments must stay usable by other engines)
-const c13Ops = 26
+// 26 / 27: Expr.CompileExpr of ONE parsed tree (`len(w) + len(string(w))`, parsed when the engine
+// is created) against an environment where w is a list / where w is a str, and run the closure;
+// 28 / 29: compile + invoke `get(p, 0) + q` against host structs of ONE Go type whose pointer field
+// is nil / set (the type of a host environment is a function of the value, not of the Go type)
+const c13Ops = 30
+
+type c13PtrHost struct {
+	P *float64 `yae:"p"` // untagged: num when set, an absent optional when nil
+	Q float64  `yae:"q"`
+}
 
 func c13OpName(op int) string {
 	switch {
+	case op == 26:
+		return "compile-parsed-tree(w:list)+run"
+	case op == 27:
+		return "compile-parsed-tree(w:str)+run"
+	case op == 28:
+		return "compile+invoke(get(p,5)+q, struct with nil pointer)"
+	case op == 29:
+		return "compile+invoke(p+q, same Go type with the pointer set)"
 	case op == 25:
 		return "second-engine:compile+invoke(e1,shared-envs)"
 	case op < 5:
@@ -124,6 +142,14 @@ func (c13) Generate(tier string, yield func(*engine.Case) bool) {
 		depth = 5
 	}
 	ok := true
+	hasNew := func(h []int) bool {
+		for _, o := range h {
+			if o >= 26 {
+				return true
+			}
+		}
+		return false
+	}
 	var rec func(h []int, compiled int)
 	rec = func(h []int, compiled int) {
 		if !ok {
@@ -149,6 +175,9 @@ func (c13) Generate(tier string, yield func(*engine.Case) bool) {
 			return
 		}
 		for op := 0; op < c13Ops; op++ {
+			if (op >= 26 || hasNew(h)) && len(h) >= 3 {
+				continue // the four newest operations take part in histories of <= 3 operations only
+			}
 			c2 := compiled
 			if op < 5 {
 				c2 |= 1 << op
@@ -156,7 +185,7 @@ func (c13) Generate(tier string, yield func(*engine.Case) bool) {
 				continue // cannot invoke what this history has not compiled
 			} else if op == 22 {
 				c2 |= 1 << 5
-			} else if op == 25 {
+			} else if op >= 25 {
 				// no precondition
 			} else if op > 22 && compiled&(1<<5) == 0 {
 				continue
@@ -172,6 +201,7 @@ func (c13) Generate(tier string, yield func(*engine.Case) bool) {
 
 type c13World struct {
 	e        *yae.Expr
+	tree     ast.Expr
 	e2       *yae.Expr
 	tenv     *types.Env
 	venv     *val.Env
@@ -193,7 +223,7 @@ func newC13World(backend string) *c13World {
 		e2.UseClosureCompiler()
 	}
 	spec := c13Spec()
-	return &c13World{e: e, e2: e2, tenv: spec.RawTypeEnv(), venv: spec.RawValEnv(), hstruct: c13HostStruct(), hmap: c13HostMap(),
+	return &c13World{e: e, tree: e.Parse("len(w) + len(string(w))"), e2: e2, tenv: spec.RawTypeEnv(), venv: spec.RawValEnv(), hstruct: c13HostStruct(), hmap: c13HostMap(),
 		tenv5: c13DynSpec(true).RawTypeEnv(), venvA: c13DynSpec(true).RawValEnv(), venvB: c13DynSpec(false).RawValEnv()}
 }
 
@@ -212,6 +242,28 @@ func (w *c13World) do(op int) (o c13Obs) {
 			}
 		}()
 		switch {
+		case op == 26 || op == 27:
+			wv := ref.ListV(gen.Num, nums(1, 2, 3)...)
+			if op == 27 {
+				wv = ref.StrV("four")
+			}
+			spec := real.EnvSpec{Rep: "raw", Binds: []real.Binding{{Name: "w", V: wv}}}
+			cl := w.e.CompileExpr(w.tree, spec.RawTypeEnv())
+			v = cl(real.RuntimeEnv(nil, spec))
+		case op == 28 || op == 29:
+			seven := 7.0
+			host := c13PtrHost{Q: 1}
+			if op == 29 {
+				host.P = &seven
+			}
+			src := "get(p, 5) + q"
+			if op == 29 {
+				src = "p + q"
+			}
+			var cb yae.Callable
+			if cb, err = w.e.Compile(src, host); err == nil {
+				v, err = cb(host)
+			}
 		case op == 25:
 			var cb yae.Callable
 			if cb, err = w.e2.Compile(c13Exprs[1], w.tenv); err == nil {
@@ -283,11 +335,16 @@ func (c13) Run(c *engine.Case) *engine.Result {
 	if last >= 5 && last < 20 {
 		bw.do((last - 5) / 3)
 	}
-	if last > 22 && last != 25 {
+	if last > 22 && last < 25 {
 		bw.do(22)
 	}
 	base := bw.do(last)
 	res.Execs++
+	// the differential oracle cannot see process-wide state that is already stale when the baseline
+	// runs: the host-struct operations also have an absolute expectation
+	if want, ok := map[int]string{28: "VALUE 6 ", 29: "VALUE 8 "}[last]; ok && !strings.HasPrefix(base.out, want) {
+		res.Violations = append(res.Violations, vf("history-changes-result", "%s on a brand-new engine (after %d earlier cases of this process) gives %s, the expression denotes %s", c13OpName(last), 0, trunc200(base.out), strings.TrimSpace(want)))
+	}
 	hostSnap := c13HostStruct()
 	mapSnap := c13HostMap()
 	for seed := 1; seed <= 8; seed++ {
